@@ -97,11 +97,12 @@ Proof.
       destruct (shutil_move_free_preserves _ _ _ _ _ W Lx R) as [W' L']; (split; [assumption | congruence]).
 Qed.
 
-Lemma dry_renamer_fs v w cwd src dst o w' e :
-  dry_renamer v w cwd src dst o = (w', e) -> w_fs w' = w_fs w /\ w_hist w' = w_hist w.
+Lemma dry_renamer_fs v sd w cwd src dst o w' e :
+  dry_renamer v sd w cwd src dst o = (w', e) -> w_fs w' = w_fs w /\ w_hist w' = w_hist w.
 Proof.
-  unfold dry_renamer. destruct (negb (dry_exists v w cwd src)); [intros E; inversion E; subst; auto|].
-  destruct (dry_exists v w cwd dst && negb o); intros E; inversion E; subst; auto.
+  unfold dry_renamer. destruct (dry_exists v w cwd dst && negb o); [intros E; inversion E; subst; auto|].
+  destruct (sd && negb _); [intros E; inversion E; subst; auto|].
+  destruct (negb (dry_exists v w cwd src)); intros E; inversion E; subst; auto.
 Qed.
 
 Lemma Safe_same w w' : w_fs w' = w_fs w -> w_hist w' = w_hist w -> Safe w -> Safe w'.
@@ -114,12 +115,12 @@ Proof.
   destruct (renamer_core c w cwd src dst false) as [w1 [e1|]] eqn:R; unfold renamer_core in R.
   - intros E; inversion E; subst.
     destruct (c_dry c).
-    + destruct (dry_renamer_fs _ _ _ _ _ _ _ _ R) as [A B]. eapply Safe_same; eassumption.
+    + destruct (dry_renamer_fs _ _ _ _ _ _ _ _ _ R) as [A B]. eapply Safe_same; eassumption.
     + destruct (c_mode c); [eapply Safe_file_renamer | eapply Safe_file_mover | eapply Safe_file_renamer]; eassumption.
   - intros E; inversion E; subst.
     assert (Safe w1).
     { destruct (c_dry c).
-      + destruct (dry_renamer_fs _ _ _ _ _ _ _ _ R) as [A B]. eapply Safe_same; eassumption.
+      + destruct (dry_renamer_fs _ _ _ _ _ _ _ _ _ R) as [A B]. eapply Safe_same; eassumption.
       + destruct (c_mode c); [eapply Safe_file_renamer | eapply Safe_file_mover | eapply Safe_file_renamer]; eassumption. }
     exact H0.
 Qed.
@@ -182,10 +183,11 @@ Lemma renamer_answers c w cwd src dst o w' e :
   renamer c w cwd src dst o = (w', e) -> w_answers w' = w_answers w.
 Proof.
   unfold renamer.
-  assert (D : forall v w0 cwd0 s0 d0 o0 w1 e1, dry_renamer v w0 cwd0 s0 d0 o0 = (w1, e1) -> w_answers w1 = w_answers w0).
-  { intros v w0 cwd0 s0 d0 o0 w1 e1. unfold dry_renamer.
-    destruct (negb (dry_exists v w0 cwd0 s0)); [intros E; inversion E; reflexivity|].
-    destruct (dry_exists v w0 cwd0 d0 && negb o0); intros E; inversion E; reflexivity. }
+  assert (D : forall v sd w0 cwd0 s0 d0 o0 w1 e1, dry_renamer v sd w0 cwd0 s0 d0 o0 = (w1, e1) -> w_answers w1 = w_answers w0).
+  { intros v sd w0 cwd0 s0 d0 o0 w1 e1. unfold dry_renamer.
+    destruct (dry_exists v w0 cwd0 d0 && negb o0); [intros E; inversion E; reflexivity|].
+    destruct (sd && negb _); [intros E; inversion E; reflexivity|].
+    destruct (negb (dry_exists v w0 cwd0 s0)); intros E; inversion E; reflexivity. }
   assert (S : forall flt k w0 r w1 e1, sys flt k w0 r = (w1, e1) -> w_answers w1 = w_answers w0).
   { intros flt k w0 r w1 e1. unfold sys. destruct (faulted flt w0); [intros E; inversion E; reflexivity|].
     destruct r; intros E; inversion E; reflexivity. }
@@ -255,6 +257,7 @@ Proof.
     destruct (generate (c_mode c) f r) as [np|ex]; [|intros E; inversion E; subst; auto].
     destruct (ppath_eqb np (pf_rel f)); [apply IH; assumption|].
     destruct (contained (c_var c) (w_fs w) f np) as [[|]|]; try (intros E; inversion E; subst; auto; fail).
+    destruct (parents_contained (w_fs w) f np) as [[|]|]; try (intros E; inversion E; subst; auto; fail).
     destruct (renamer c w cwd1 (pf_rel f) np false) as [w1 [e1|]] eqn:R;
       pose proof (Safe_renamer _ _ _ _ _ _ _ G H R) as H1; pose proof (renamer_answers _ _ _ _ _ _ _ _ R) as A1.
     + destruct (is_file_exists e1).
